@@ -57,6 +57,8 @@ impl Tok {
 /// changed inputs).
 pub struct Recorder { pub toks: Vec<Tok>, rng: Rng, override_pct: u64, pub n_override: u64, pub n_mutated: u64 }
 impl Recorder {
+    /// 101 = answer every call/create below the transaction level, none at the transaction level
+    fn pct(&self, depth: u64) -> u64 { if self.override_pct == 101 { if depth >= 1 { 100 } else { 0 } } else { self.override_pct } }
     pub fn new(seed: u64, override_pct: u64) -> Self { Recorder { toks: vec![], rng: Rng::new(seed), override_pct, n_override: 0, n_mutated: 0 } }
     fn result(&mut self, gas_limit: u64) -> InterpreterResult {
         let r = *self.rng.pick(&[InstructionResult::Stop, InstructionResult::Return, InstructionResult::Revert, InstructionResult::OutOfGas,
@@ -85,13 +87,13 @@ impl<DB: revm::Database> Inspector<DB> for Recorder {
     fn call(&mut self, c: &mut EvmContext<DB>, inputs: &mut CallInputs) -> Option<CallOutcome> {
         let depth = c.journaled_state.depth();
         let roll = self.rng.below(100);
-        if roll < self.override_pct {
+        if roll < self.pct(depth) {
             self.n_override += 1;
             let r = self.result(inputs.gas_limit);
             self.toks.push(Tok::Open { k: 0, id: h64(inputs), insp: true, depth });
             return Some(CallOutcome::new(r, inputs.return_memory_offset.clone()));
         }
-        if self.override_pct > 0 && roll < self.override_pct + 10 {
+        if self.override_pct > 0 && self.override_pct <= 100 && roll < self.override_pct + 10 {
             // change the inputs: the handler must hand the changed inputs to call_end
             self.n_mutated += 1;
             inputs.gas_limit -= inputs.gas_limit.min(self.rng.below(3));
@@ -107,14 +109,14 @@ impl<DB: revm::Database> Inspector<DB> for Recorder {
     fn create(&mut self, c: &mut EvmContext<DB>, inputs: &mut CreateInputs) -> Option<CreateOutcome> {
         let depth = c.journaled_state.depth();
         let roll = self.rng.below(100);
-        if roll < self.override_pct {
+        if roll < self.pct(depth) {
             self.n_override += 1;
             let r = self.result(inputs.gas_limit);
             let a = if r.result.is_ok() { Some(progs::addr(0xC0DE)) } else { None };
             self.toks.push(Tok::Open { k: 1, id: h64(inputs), insp: true, depth });
             return Some(CreateOutcome::new(r, a));
         }
-        if self.override_pct > 0 && roll < self.override_pct + 10 {
+        if self.override_pct > 0 && self.override_pct <= 100 && roll < self.override_pct + 10 {
             self.n_mutated += 1;
             inputs.gas_limit -= inputs.gas_limit.min(self.rng.below(3));
         }
@@ -127,7 +129,7 @@ impl<DB: revm::Database> Inspector<DB> for Recorder {
     }
     fn eofcreate(&mut self, c: &mut EvmContext<DB>, inputs: &mut EOFCreateInputs) -> Option<CreateOutcome> {
         let depth = c.journaled_state.depth();
-        if self.rng.below(100) < self.override_pct {
+        if self.rng.below(100) < self.pct(depth) {
             self.n_override += 1;
             let r = self.result(inputs.gas_limit);
             let a = if r.result.is_ok() { Some(progs::addr(0xC0DE)) } else { None };
@@ -194,9 +196,12 @@ pub fn run(o: &Opts) {
         // depth-limit cases are large: spread them over different shards
         let deep = i % 233 == 100 && deep_done < n_deep;
         if deep { deep_done += 1; }
-        let eof = i % 120 == 7;
-        let world = if deep { progs::deep_world(&mut rng, i as u64) } else if eof { progs::eof_world(i as u64 / 120) } else { progs::gen_world(&mut rng, &opts) };
-        let override_pct = if deep { 0 } else { match i % 4 { 0 | 1 => 0, 2 => 12, _ => 35 } };
+        // EOF creates (create transactions with EOF init code, nested EOFCREATE): every shape is run with an
+        // observing inspector, with one that answers every create/eofcreate itself, and with a 35% one
+        let eof = i % 30 == 7;
+        let eofk = (i / 30) as u64;
+        let world = if deep { progs::deep_world(&mut rng, i as u64) } else if eof { progs::eof_world(eofk / 4) } else { progs::gen_world(&mut rng, &opts) };
+        let override_pct = if deep { 0 } else if eof { [0u64, 100, 35, 101][(eofk % 4) as usize] } else { match i % 4 { 0 | 1 => 0, 2 => 12, _ => 35 } };
         let iseed = rng.next();
         // perturbation hook for teeth tests: VH_C29_PERTURB=drop-close|swap-id
         let rounds = if !deep && i % 7 == 3 { 2 + (i % 2) as u32 } else { 1 };
